@@ -220,7 +220,21 @@ def is_state_field(cr, f):
         return False, "marker"
     if t["k"] == "uint" and t["name"] == "usize":
         return False, "byte cursor (position, not chaining state)"
+    if t["k"] == "adt" and t.get("local"):
+        # a workspace wrapper (newtype) that itself only borrows / marks: not owned state
+        a = adt_by_path(cr, t["adt"])
+        if a is not None and a["kind"] == "struct" and a["variants"] and a["variants"][0]["fields"] and _depth[0] < 4:
+            _depth[0] += 1
+            try:
+                inner = [is_state_field(cr, g) for g in a["variants"][0]["fields"]]
+            finally:
+                _depth[0] -= 1
+            if not any(x[0] for x in inner):
+                return False, "wrapper around: " + "; ".join(sorted(set(x[1] for x in inner)))
     return True, ""
+
+
+_depth = [0]
 
 
 def state_bearing(cr, a):
